@@ -36,9 +36,9 @@ func (w *World) Confused(typ string, t *Tok) bool {
 	term := w.TokTerm(t)
 	switch typ {
 	case "TId":
-		return strings.HasPrefix(term, "(PJwt ") && !strings.Contains(term, " NoId ")
+		return (strings.HasPrefix(term, "(PJwt ") || strings.HasPrefix(term, "(PJwtX ")) && !strings.Contains(term, " NoId ")
 	case "TAccess":
-		return (strings.HasPrefix(term, "(PJwt ") && strings.Contains(term, ` NoId "" `)) || term == `(POpq NoId "")`
+		return ((strings.HasPrefix(term, "(PJwt ") || strings.HasPrefix(term, "(PJwtX ")) && strings.Contains(term, ` NoId "" `)) || term == `(POpq NoId "")`
 	}
 	return false
 }
@@ -93,7 +93,8 @@ func (w *World) Adversarial() *Tok {
 	case 5:
 		return w.RawID(drv.Pick(w.R, []string{w.someID("at"), w.someID("rt"), "rt99", "at99"}))
 	case 6, 7:
-		v := drv.Pick(w.R, []string{"other-issuer", "wrong-key", "wrong-kid", "expired"})
+		v := drv.Pick(w.R, []string{"other-issuer", "wrong-key", "wrong-kid", "expired", "expired+wrong-kid", "expired+wrong-key",
+			"extra-key", "extra-key", "extra-key", "extra-key-expired"})
 		return w.CraftJWT(v, w.someID("at"), drv.Pick(w.R, Subjects), drv.Pick(w.R, issueClients), w.R.Chance(1, 3))
 	case 8:
 		if len(jwts) > 0 {
@@ -128,6 +129,12 @@ func (w *World) Present(kinds ...string) *Tok {
 	pool := w.Pool
 	if len(kinds) > 0 {
 		pool = w.PoolOf(kinds...)
+	}
+	if len(w.KOpts) > 0 && w.R.Chance(1, 8) {
+		// a forged token under the retired key, aimed at a live token: honoured only by the verifier
+		// whose option designates that key
+		id := len(kinds) > 0 && kinds[0] == "idtok"
+		return w.CraftJWT(drv.Pick(w.R, []string{"extra-key", "extra-key", "extra-key-expired"}), w.someID("at"), drv.Pick(w.R, Subjects), drv.Pick(w.R, issueClients), id)
 	}
 	if len(pool) > 0 && w.R.Chance(7, 10) {
 		return drv.Pick(w.R, pool)
